@@ -1598,7 +1598,7 @@ package gocql
 //@   before[C01] addCall: arg0 == c && GetStream_calls == 1 && GetStream_ret1 && arg1.streamID == GetStream_ret0 && fresh(arg1) && fresh(arg1.resp) && fresh(arg1.timeout)
 //@   before[C01] buildFrame: arg1 == GetStream_ret0 && addCall_calls == 1 && addCall_ret0 == nil
 //@   before[C07] writeContext: same(arg1, framer.buf) && buildFrame_calls == 1 && buildFrame_ret0 == nil
-//@   before[C06] releaseStream: arg0 == c && arg1 == call && releaseStream_calls == 1 && (writeContext_calls == 0 || (writeContext_ret1 != nil && writeContext_ret0 == 0) || selrecvd(call.resp) == 1)
+//@   before[C06,C07] releaseStream: arg0 == c && arg1 == call && releaseStream_calls == 1 && (writeContext_calls == 0 || (writeContext_ret1 != nil && writeContext_ret0 == 0) || selrecvd(call.resp) == 1)
 //@   before[C06] closeWithError: writeContext_calls == 1 && writeContext_ret1 != nil
 //@   ensures releaseStream_calls <= 1 && GetStream_calls <= 1 && addCall_calls <= 1 && writeContext_calls <= 1
 //@   ensures result1 == nil ==> result0 != nil && result0.header != nil
@@ -1611,7 +1611,7 @@ package gocql
 //@   at_return[C01] result1 == nil ==> selrecvd(call.resp) == 1 && result0 == resp.framer && releaseStream_calls == 1
 //@   at_return[C06] addCall_calls == 1 && addCall_ret0 == nil ==> closed(call.timeout)
 //@   at_return[C06] writeContext_calls == 1 && writeContext_ret1 == nil && selrecvd(call.resp) == 0 ==> releaseStream_calls == 0
-//@   at_return[C06] writeContext_calls == 1 && writeContext_ret1 != nil && writeContext_ret0 != 0 ==> releaseStream_calls == 0 && closeWithError_calls == 1
+//@   at_return[C06,C07] writeContext_calls == 1 && writeContext_ret1 != nil && writeContext_ret0 != 0 ==> releaseStream_calls == 0 && closeWithError_calls == 1
 
 // ---------------------------------------------------------------------------
 // prepared statements (C14): prepared_cache.go, conn.go prepareStatement / executeQuery
